@@ -1,6 +1,6 @@
 (* C17 — reports are independent of environment, history and concurrency. *)
-From ASModel Require Import Base Shared PathRes.
-From ASProofs Require Import PathResP SharedP.
+From ASModel Require Import Base Shared PathRes SrcLoc Report Display.
+From ASProofs Require Import PathResP SharedP ReportDetP.
 
 (* The source cache (SOURCE_CACHE behind a RwLock, read-then-insert) as a transition system:
    any number of threads, each executing cached_source(path) as the atomic steps
@@ -21,6 +21,17 @@ Theorem c17_same_as_alone : forall (fs : string -> option string) schedule c0 ca
              c_pc k' = PDone r.
 Proof. exact same_as_alone. Qed.
 Print Assumptions c17_same_as_alone.
+
+(* the cache composed with Display (Model/Display.v): what a thread finally formats is a function of its own source file,
+   the renderer choice and its own entries — whatever the schedule, the other threads' files and failures, and the history *)
+Theorem c17_report_determined_by_source_choice_and_entries :
+  forall (fs : string -> option string) (decode : string -> text) schedule c0 calls i k styled_ rel es out,
+  cache_ok fs c0 -> Forall (fun k => c_pc k = PStart) calls ->
+  nth_error (snd (run fs (c0, calls) schedule)) i = Some k ->
+  rendered_of decode k styled_ rel es = Some out ->
+  out = display styled_ rel (option_map decode (fs (c_path k))) es.
+Proof. exact report_determined_by_source_choice_and_entries. Qed.
+Print Assumptions c17_report_determined_by_source_choice_and_entries.
 
 (* no deadlock: no step waits for another thread; three own steps complete a call *)
 Theorem c17_no_deadlock : forall (fs : string -> option string) schedule c0 calls i k,
